@@ -726,7 +726,7 @@ func main() {
 	}
 	r := gen.NewRand(f.Seed)
 	n := f.N(120, 1500)
-	budget := 45 * time.Second // quick tier: stay within ~60 s whatever the machine load
+	budget := 30 * time.Second // quick tier: stay within ~60 s whatever the machine load
 	if f.Tier == "thorough" {
 		budget = 12 * time.Minute
 	}
